@@ -47,9 +47,9 @@ func init() {
 			c.runBoundDirection("BOUNDDIR", c.libPkgs()[:3], nil)
 			c.floor("BOUNDDIR", 4)
 			c.runFieldCanon("FIELDCANON", append(c.libPkgs()[:4:4], c.fixturePkg("g")))
-			c.floor("FIELDCANON", 3)
+			c.floor("FIELDCANON", 1)
 			c.runCanonFirst("CANON", append(c.libPkgs()[:4:4], c.fixturePkg("g")))
-			c.floor("CANON", 3)
+			c.floor("CANON", 1)
 		},
 		SelfTest: []Mutation{
 			{Name: "height map solid checks only z", File: "toolbox3d/height_map.go",
